@@ -213,6 +213,12 @@ def generate(ctx):
                 xs.append(dict(d=d, text=pad + text + rng.choice(["", "", " ", "\t "])))
             xs.append(dict(d=None, text=rng.choice(["v", " v", "v ", "name_1", "", "  "])))
             cases.append(dict(ctx=dctx, t=t, s=G.spell(G.tokens(t), None), xs=xs))
+    # witnesses of the fixed finding void-param-function-type (ce8c84e): function types with a void parameter
+    wctx = {"structs": [], "enums": [], "consts": [],
+            "typedefs": [{"name": "fn", "t": {"specs": ["void"], "decl": G.empty_decl()}}]}
+    for sw in ["float _Complex(*)(const fn)", "float _Complex(*)(const void)", "double _Complex(**)(fn)",
+               "int(*)(const void, ...)", "float _Complex(*)(int, const void)"]:
+        cases.append(dict(ctx=wctx, t=None, s=sw, xs=[dict(d=None, text=""), dict(d=None, text="v")]))
     return cases
 
 
@@ -499,42 +505,85 @@ def coq_run(lits):
 
 
 def run_gcc(ctx, s, groups, cases, gcc_cases):
+    """gcc oracle. A context whose own declarations are not valid C for gcc (the C07 generator produces some that
+    cffi accepts, e.g. arrays of an incomplete struct inside a typedef) is skipped; a getctype(T, 'v') declaration
+    that gcc refuses inside a valid context is a violation of the property for that T."""
+    import re
     if not gcc_cases:
         return
-    src = [C_PRELUDE]
     by_group = {}
     for gc in gcc_cases:
         by_group.setdefault(gc[0], []).append(gc)
-    for gi, lst in by_group.items():
-        dctx = groups[gi]["ctx"]
-        src.append("static void ctx_%d(void) {" % gi)
-        cdef = G.ctx_cdef(dctx)
-        for line in cdef.splitlines():
+
+    def ctx_lines(gi):
+        out = ["static void ctx_%d(void) {" % gi]
+        for line in G.ctx_cdef(groups[gi]["ctx"]).splitlines():
             if line.startswith("#define"):
                 _, n, v = line.split(None, 2)
-                src.append("  enum { %s = 0 };  /* value irrelevant here: %s */" % (n, v.strip()))
+                out.append("  enum { %s = 0 };  /* value irrelevant here: %s */" % (n, v.strip()))
             else:
-                src.append("  " + line)
+                out.append("  " + line)
+        return out
+
+    def syntax_check(lines, tag):
+        path = os.path.join(s.work, "c08_probe_%s.c" % tag)
+        with open(path, "w") as f:
+            f.write("\n".join(lines) + "\n")
+        p = subprocess.run(["gcc", "-w", "-std=gnu11", "-fsyntax-only", path], capture_output=True, text=True)
+        return p.returncode == 0, p.stderr
+
+    src = [C_PRELUDE]
+    live = {}
+    for gi, lst in by_group.items():
+        head = C_PRELUDE.splitlines() + ctx_lines(gi)
+        ok, err = syntax_check(head + ["}"], "ctx%d" % gi)
+        if not ok:
+            ctx.hist("gcc", "context is not valid C for gcc: skipped")
+            continue
+        # each declaration on its own line: errors are attributed by line number
+        body, lineno = [], {}
         for k, (_, i, decl, size, cname) in enumerate(lst):
+            lineno[len(head) + len(body) + 1] = k
+            body.append("  { %s; printf(\"%d %d %%zu\\n\", sizeof(v)); }" % (decl, gi, k))
+        ok, err = syntax_check(head + body + ["}"], "ctx%d" % gi)
+        badk = set()
+        if not ok:
+            for m in re.finditer(r"c08_probe_ctx%d\.c:(\d+):\d+: error: (.*)" % gi, err):
+                k = lineno.get(int(m.group(1)))
+                if k is None:
+                    badk = None
+                    break
+                if k not in badk:
+                    badk.add(k)
+                    _, i, decl, size, cname = lst[k]
+                    ctx.violation(cases[i], "gcc refuses `%s;` produced by getctype(%r, 'v'): %s" % (decl, cname, m.group(2)))
+            if badk is None:
+                ctx.hist("gcc", "context is not valid C for gcc: skipped")
+                continue
+        keep = [(k, x) for k, x in enumerate(lst) if k not in badk]
+        live[gi] = keep
+        src += ctx_lines(gi)
+        for k, (_, i, decl, size, cname) in keep:
             src.append("  { %s; printf(\"%d %d %%zu\\n\", sizeof(v)); }" % (decl, gi, k))
         src.append("}")
-    src.append("int main(void) { %s return 0; }" % " ".join("ctx_%d();" % gi for gi in by_group))
+    if not live:
+        return
+    src.append("int main(void) { %s return 0; }" % " ".join("ctx_%d();" % gi for gi in live))
     path = os.path.join(s.work, "c08_probe.c")
     with open(path, "w") as f:
         f.write("\n".join(src) + "\n")
     exe = os.path.join(s.work, "c08_probe")
     p = subprocess.run(["gcc", "-w", "-std=gnu11", "-o", exe, path], capture_output=True, text=True)
     if p.returncode:
-        # find the offending declarations one context at a time is not needed: report the first error line
-        ctx.violation(cases[gcc_cases[0][1]], "gcc refuses a declaration produced by getctype(T, 'v'): " + p.stderr[:1500])
+        ctx.obligation_broken("C08 gcc probe", "the combined probe does not compile although every context does: " + p.stderr[:1500])
         return
     p = subprocess.run([exe], capture_output=True, text=True, timeout=60)
     sizes = {}
     for line in p.stdout.splitlines():
         a, b, c = line.split()
         sizes[(int(a), int(b))] = int(c)
-    for gi, lst in by_group.items():
-        for k, (_, i, decl, size, cname) in enumerate(lst):
+    for gi, keep in live.items():
+        for k, (_, i, decl, size, cname) in keep:
             ctx.count()
             ctx.hist("gcc", "checked")
             if sizes.get((gi, k)) != size:
